@@ -62,10 +62,10 @@ def parseOp (ws : List String) : Option Op :=
     match parseKind k, parseBool ok with
     | some k, some ok => if plainAllowed k then some (.plain k ok) else none
     | _, _ => none
-  | ["addcluster", c, hc] =>
-    match c.toNat?, parseBool hc with
-    | some c, some hc => some (.addCluster c hc)
-    | _, _ => none
+  | ["addcluster", c, hc, tpl] =>
+    match c.toNat?, parseBool hc, parseBool tpl with
+    | some c, some hc, some tpl => some (.addCluster c hc tpl)
+    | _, _, _ => none
   | ["rmcluster", c] => c.toNat?.map Op.removeCluster
   | ["addbackend", c, b, a] =>
     match c.toNat?, b.toNat?, a.toNat? with
